@@ -1124,9 +1124,20 @@ pub fn validate_cff(d: &[u8], num_glyphs: Option<usize>, charstrings: bool) -> (
     let is_cid = td.iter().any(|e| e.0 == 1230);
     // charset
     match dict_int(&td, 15, 0).unwrap_or(0) {
-        0 | 1 | 2 => {
+        p @ (0 | 1 | 2) => {
             if is_cid {
                 issue(&mut iss, "cff:charset", "CID-keyed font with a predefined charset".into());
+            }
+            // TN #5176 section 13 / appendix C: a predefined charset stands for a fixed glyph list
+            // (.notdef included: ISOAdobe 229, Expert 166, ExpertSubset 87 glyphs); a font "whose charset
+            // matches [it] exactly or is a subset" may use it. Glyphs beyond the list have no name.
+            let (pname, plen) = [("ISOAdobe", 229usize), ("Expert", 166), ("ExpertSubset", 87)][p as usize];
+            if n > plen {
+                issue(
+                    &mut iss,
+                    "cff:predefined-charset-shorter-than-charstrings",
+                    format!("predefined charset {} ({}) names glyphs 0..={} only, the CharStrings INDEX has {} glyphs: glyphs {}..={} have no charset entry", p, pname, plen - 1, n, plen, n - 1),
+                );
             }
         }
         o => {
